@@ -225,6 +225,9 @@ type version struct {
 	// "source" the download or the parser).
 	Kind  string `json:"kind,omitempty"`
 	Fault string `json:"fault,omitempty"`
+	// MayFail: an error of this save is not a finding by itself (a list above a
+	// download size limit may be refused); dst must then hold the previous version.
+	MayFail bool `json:"may_fail,omitempty"`
 	// WantSha names the side file with the reference content of a version too
 	// large for Hex: the intended content when known, else what was read back.
 	WantSha string `json:"want_sha,omitempty"`
@@ -269,8 +272,10 @@ type Case struct {
 	wantShas   []string
 	unordered  bool // concurrent saves: the order of publication is not known to the harness
 	// Kind of the next save (see version.Kind); reset after every save.
-	Kind  string
-	saves int
+	Kind string
+	// MayFail for the next save (see version.MayFail); reset after every save.
+	MayFail bool
+	saves   int
 }
 
 // dump stores a reference content for the parser (outside the traced root),
@@ -420,6 +425,7 @@ func (c *Case) SaveB(label string, expectErr bool, f func() (bool, error)) (repl
 	replaced, err = f()
 	v, cur := snapshotB(c.Dst)
 	v.Label, v.ExpectErr, v.Kind = label, expectErr, kind
+	v.MayFail, c.MayFail = c.MayFail, false
 	if expectErr {
 		v.Fault = "source"
 		if c.s.Inject != "" {
